@@ -185,3 +185,49 @@ func vC33Run(k int) {
 
 func VerifC33_shares2() { vC33Run(2) }
 func VerifC33_shares3() { vC33Run(3) }
+
+// VerifC33_restart: a round that collected shares for timeout count 0 restarts (the sequence of
+// restartRound: Round.Restart, then the timeout count moves to 1, which changes the message
+// every share signs) and then receives shares for timeout count 1. Nothing collected before
+// the restart may be counted afterwards, and a fresh valid share of the same sender is accepted.
+func VerifC33_restart() {
+	round.SetupEntity(nil)
+	ctx := context.Background()
+	if !sym.Symbolic() {
+		common.SetupRootContext(ctx)
+	}
+	t := sym.Choice("threshold", 2, 3)
+	net := vC33NewNet(t)
+	mc := net.vC33Miner(vC33Round)
+	r := mc.getOrCreateRound(ctx, vC33Round)
+	msg0, err := mc.GetBlsMessageForRound(r.Round)
+	if err != nil {
+		panic(err)
+	}
+	s1 := sym.Choice("sender1", 1, vC33N-1)
+	mc.handleVRFShare(ctx, net.vC33Share(s1, sym.Choice("kind1", 0, 3), msg0))
+	if r.IsVRFComplete() {
+		return // threshold >= 2: one message cannot complete the round
+	}
+	if err := r.Restart(); err != nil {
+		return
+	}
+	r.SetTimeoutCount(1)
+	sym.Assert(len(r.GetVRFShares()) == 0, "a restarted round counts no share collected before the restart")
+	msg1, err := mc.GetBlsMessageForRound(r.Round)
+	if err != nil {
+		panic(err)
+	}
+	s2 := sym.Choice("sender2", 1, vC33N-1)
+	mc.handleVRFShare(ctx, net.vC33Share(s2, 4, msg1))
+	dkg := mc.GetDKG(vC33Round)
+	shares := r.GetVRFShares()
+	for _, s := range shares {
+		sym.Assert(verifyVRFShare(r, s, msg1, dkg), "after a restart every counted share verifies for the new timeout count")
+	}
+	sym.Cover("restarted")
+	sym.Assert(len(shares) == 1, "the fresh valid share of the new timeout count is counted (also from the sender of a pre-restart share)")
+	if r.IsVRFComplete() {
+		sym.Assert(len(shares) >= t, "fewer than threshold shares never produce a seed")
+	}
+}
